@@ -20,6 +20,9 @@ from analysis.props import c11, c10
 nest = c10.mine_nesting(w, 'default') + c10.mine_nesting(World('devcurves'), 'devcurves')
 json.dump(nest, open(os.path.join(facts.VERIF, 'rules', 'nesting.json'), 'w'))
 print('nesting profiles', len(nest))
+ops = c10.mine_ops(w) + c10.mine_ops(World('truncated'), 'truncated')
+json.dump(ops, open(os.path.join(facts.VERIF, 'rules', 'ops.json'), 'w'))
+print('operation profiles', len(ops))
 uc = c11.unchecked_callers(w)
 for k, v in c11.unchecked_callers(World('devcurves')).items():
     uc.setdefault(k, set()).update(v)
